@@ -76,7 +76,16 @@ fn run_case(toks: &[&str]) -> String {
     } else {
         match EnvFilter::builder().parse(dirs.join(",")) { Ok(f) => f, Err(e) => return format!("PARSE-ERROR {}", e).replace(' ', "_") }
     };
-    let d = Dispatch::new(tracing_subscriber::registry().with(Rec).with(filter));
+    // the filter as a global layer, as the per-layer filter of the recording layer, or as the right operand of an `or` whose left
+    // operand lets nothing through (a function of the case: all three must decide alike)
+    let d = match toks.len() % 3 {
+        0 => Dispatch::new(tracing_subscriber::registry().with(Rec).with(filter)),
+        1 => Dispatch::new(tracing_subscriber::registry().with(Rec.with_filter(filter))),
+        _ => {
+            use tracing_subscriber::filter::FilterExt;
+            Dispatch::new(tracing_subscriber::registry().with(Rec.with_filter(tracing_subscriber::filter::LevelFilter::OFF.or(filter))))
+        }
+    };
     let dd = d.clone();
     tracing::dispatch::with_default(&dd, || {
         let mut metas: HashMap<String, &'static Metadata<'static>> = HashMap::new();
